@@ -120,18 +120,20 @@ class P(Prop):
         (M, "TV.C04.getitemInt_spec", "track[i] = the i-th observation; track[-(i+1)] = the (size-1-i)-th"),
         (M, "TV.C04.getitemSlice_spec", "track[a:b:c], c >= 1: the positions s, s+c, ... < e with s, e the bounds clamped as Python does (= (track[a:b]) % c), table carried"),
         (M, "TV.C04.getitemSlice_simple", "track[a:b], 0 <= a, b: the positions a <= j < b"),
-        (M, "TV.C04.sortRadix_spec", "sortRadix with every digit inside its buckets (years 1970..2069): no IndexError, a permutation, ordered lexicographically by (year, month, day, hour, min, sec*1000+ms), stable"),
-        (M, "TV.C04.sortRadix_sorted", "sortRadix: if the lexicographic order of the fields implies the order of the timestamps (C03), the result is non-decreasing in time and a permutation of the records"),
+        (M, "TV.C04.sortRadix_spec", "sortRadix (year buckets ymin..ymax of the track, fix b323645) with the five lower digits inside their buckets and ANY years: no IndexError, a permutation, ordered lexicographically by (year, month, day, hour, min, sec*1000+ms), stable; empty track included"),
+        (M, "TV.C04.sortRadix_sorted", "sortRadix: if the lexicographic order of the fields implies the order of the timestamps, the result is non-decreasing in time and a permutation of the records"),
+        (M, "TV.C04.lex_stamps", "for two well-formed timestamps (C03's WFs) the lexicographic order of the digits sortRadix reads is the order of the epoch instants (through C03's ltS_iff)"),
+        (M, "TV.C04.sortRadix_stamps", "for EVERY track of well-formed timestamps (C03's WFs, no bound on the year) sortRadix is a stable sort by time: no exception, a permutation, non-decreasing epoch milliseconds, equal instants keep their order"),
     ]
     partial = []
     open_statements = [
         "'without modifying the source track' cannot be stated about a purely functional model (observations are values, tracks share none): it is checked on the real code by the oracle — every track of the pool is dumped after every operation of a session, and a feature created afterwards on one track must not appear in another's table",
-        "track[a:b:c] with a NEGATIVE step and sortRadix on a timestamp outside 1970..2069 / with a non-integer ms are modelled (reversed walk; IndexError / wrap-around of a negative bucket index) and compared with the code, not covered by a theorem",
+        "track[a:b:c] with a NEGATIVE step is modelled (reversed walk) and compared with the code, not covered by a theorem; sortRadix on a timestamp with a non-integer ms (TypeError) is outside the model",
         "(int)(math.log(N)/math.log(2)) = floor(log2 N) is a float computation outside the theorems: T1/T2 hold for any first step 2^j with 2*2^j <= N; the 'ilog' stream checks the expression for every N <= 2^16 (2^21 thorough) and around every 2^k, k < 40",
         "arguments with no designated observation (negative indices / counts, index >= size, zero step, empty pattern) are modelled and compared with the code but are outside the property's oracle",
     ]
     modelled = ("Track.__getInsertionIndex (dichotomy + two fix-up loops), insertObs (with and without index) / insertObsInChronoOrder / addObs, "
-                "sort (np.argsort = trusted call with the contract 'sorting permutation'), sortRadix (the six bucket passes on positions), "
+                "sort (np.argsort = trusted call with the contract 'sorting permutation'), sortRadix (the five fixed bucket passes and the year pass over min..max year of the track, on positions), "
                 "removeObsList/__removeObsListById/__removeObsById, removeObs / removeFirstObs / removeLastObs / popObs, extract, "
                 "extractSpanTime (two instants or a track), __add__, __mod__ (int and list), __gt__/__lt__ with an integer, "
                 "__getitem__ (integer, slice with CPython's index adjustment, (name, i) / (i, name), name), __transmitAF; the feature table "
@@ -154,7 +156,7 @@ class P(Prop):
             "(start, stop in None, -n-1..n+1, step in None,1,2,3,-1,-2,0), track[i], insertObs(obs,i), removeObs, popObs, the three read forms, for every i in "
             "-n-2..n+2 on sizes 0..4; every pair of histories x '+' (also with an empty operand that carries a table); every history x every operator followed "
             "by a second operator; 4000 (40000 thorough) random chains. sortRadix: pairs later in one field and earlier in every / one less significant field, "
-            "random tracks of 1..40 timestamps (years 1970..2069, a few beyond: IndexError). "
+            "random tracks of 1..40 timestamps (years 1..2500, on both sides of 1970..2069 in one track too). "
             "non-trivial = a track has at least 2 observations (so a loop of the operation runs)")
 
     # ---------------------------------------------------------------- setup / construction
@@ -527,7 +529,7 @@ class P(Prop):
         return out
 
     def radix_cases(self, rng, tier):
-        """sortRadix allocates 60000 + 60 + 24 + 31 + 12 + 100 buckets per call (70 ms): a few hundred cases"""
+        """sortRadix allocates 60000 + 60 + 24 + 31 + 12 buckets (and one per year of the span) per call (70 ms): a few hundred cases"""
         out = []
         R = lambda fs: out.append({"kind": "radix", "times": [0] * len(fs), "fields": [list(f) for f in fs]})
         mid, d = [2001, 6, 15, 12, 30, 30, 500], [1, 5, 10, 11, 29, 29, 499]
@@ -541,6 +543,8 @@ class P(Prop):
                 R([c, a]); R([a, c])
         for n in range(0, 4):
             R([mid] * n)
+        for ys in ([2070, 2000], [1969, 2000, 1971], [2069, 2070], [1970, 1969], [2100, 1900, 2000, 1900], [1869], [2500, 1]):
+            R([[y] + mid[1:] for y in ys])
         lo, hi = [mid[i] - d[i] for i in range(7)], [mid[i] + d[i] for i in range(7)]
         for _ in range(120 if tier == "quick" else 2500):
             n = rng.choice([1, 2, 3, 4, 5, 8, 16, 17, 40])
@@ -555,9 +559,10 @@ class P(Prop):
                 else:
                     f = [2024, 2, rng.choice([28, 29]), rng.choice([0, 23]), rng.choice([0, 59]), rng.choice([0, 59]), rng.choice([0, 999])]
                 fs.append(f)
-            if mode > 0.95:
-                # no bucket for the year: IndexError (the track is left as it was) / a negative bucket index wraps around
-                fs[rng.randrange(n)][0] = rng.choice([2070, 2100, 1969, 1900, 1869])
+            if mode > 0.8 or rng.random() < 0.15:
+                # years on both sides of 1970..2069 (the year buckets once were 1970..2069: fix b323645)
+                for _j in range(rng.randrange(1, 3)):
+                    fs[rng.randrange(n)][0] = rng.choice([2070, 2100, 1969, 1900, 1869, 1, 2500])
             if rng.random() < 0.3:
                 fs = sorted(fs)
             elif rng.random() < 0.15:
@@ -1182,17 +1187,10 @@ class P(Prop):
         return None
 
     # ================================================================ sortRadix
-    RADIX_YEARS_STRICT = False     # True once 'sortradix-year-outside-1970-2069' is a listed finding: the oracle then judges those tracks too
-
-    def classify(self, case, impl_out, msg):
-        if case.get("kind") == "radix" and any(not 1970 <= f[0] <= 2069 for f in case["fields"]):
-            return "sortradix-year-outside-1970-2069"
-        return None
-
     @staticmethod
     def radix_digits(f):
         y, mo, d, h, mi, sec, ms = f
-        return [sec * 1000 + ms, mi, h, d - 1, mo - 1, y - 1970]
+        return [sec * 1000 + ms, mi, h, d - 1, mo - 1, y]
 
     def impl_radix(self, case):
         obs = [self.Obs(self.ENU(float(i), 2.0 * i + 0.5, -float(i)), self.ObsTime(*f)) for i, f in enumerate(case["fields"])]
@@ -1218,10 +1216,6 @@ class P(Prop):
             return "sortRadix raised %s" % out.get("err")
         if any(not (isinstance(r[0], int) and 0 <= r[0] < len(fields) and r[1] == fields[r[0]]) for r in rows):
             return "sortRadix altered an observation: %s" % rows
-        if any(not 1970 <= f[0] <= 2069 for f in fields) and not self.RADIX_YEARS_STRICT:
-            # sortRadix has one bucket per year 1970..2069 (a later year raises IndexError, an earlier one wraps around to a late
-            # bucket): reported as a finding; until it is listed in known_findings.json such tracks are only compared with the model
-            return None if sorted(r[0] for r in rows) == list(range(len(fields))) else "sortRadix lost observations: %s" % rows
         if "err" in out:
             return "sortRadix raised %s on %s" % (out["err"], fields)
         if sorted(r[0] for r in rows) != list(range(len(fields))):
